@@ -471,7 +471,7 @@ func c10Check(c *core.Ctx, cs c10Case) {
 }
 
 func init() {
-	sizes := map[core.Tier]int{core.Quick: 100000, core.Thorough: 3000000}
+	sizes := map[core.Tier]int{core.Quick: 100000, core.Thorough: 10000000}
 	core.Register(&core.Prop{
 		ID:    "C10",
 		Level: "exploration",
